@@ -112,6 +112,7 @@ func init() {
 		ex.writeTo(a[1], UF("formpost.html", SSeq, args...))
 		return Iface{}
 	})
+	reg(nd("Fingerprint"), func(ex *Exec, fn *ssa.Function, a []Value) Value { return StrLit("fingerprint") })
 	formArgs := func(body Value) ([]*Term, bool) {
 		t, ok := body.(*Term)
 		if !ok || t.Op != "uf" || t.Name != "uf_"+mangle("formpost.html") {
